@@ -298,40 +298,63 @@ fn mode_simplify(case: &Value, out: &mut Vec<Value>) {
         }
         for st in ["shallow", "recursive", "fixpoint"] {
             let mut passes: Vec<Value> = Vec::new();
-            let r = guarded(|| {
-                let mut simp = verif::portfolio(pf).unwrap().into_iter().compose();
-                match st {
-                    "shallow" => simp(f.clone()),
-                    "recursive" => f.clone().apply(&mut simp),
-                    _ => f.clone().apply_fixpoint(&mut simp),
-                }
-            });
+            // the fixpoint loop is first driven pass by pass (C18): f_{k+1} = f_k.apply(portfolio), at most 64 passes;
+            // the library's own loop is only entered when the driven loop converged (it would not return otherwise)
+            let mut converged = true;
+            let mut driven_result: Option<fol::Formula> = None;
             if st == "fixpoint" {
-                // drive the loop pass by pass (C18): f_{k+1} = f_k.apply(portfolio)
                 let driven = guarded(|| {
                     let mut simp = verif::portfolio(pf).unwrap().into_iter().compose();
                     let mut cur = f.clone();
                     let mut seq = vec![json!({"h":hash_str(&format!("{cur:?}")),"size":format!("{cur}").len()})];
+                    let mut done = false;
                     for _ in 0..64 {
                         let next = cur.clone().apply(&mut simp);
                         let same = next == cur;
                         cur = next;
                         if same {
+                            done = true;
                             break;
                         }
                         seq.push(json!({"h":hash_str(&format!("{cur:?}")),"size":format!("{cur}").len()}));
                     }
-                    (seq, cur)
+                    (seq, cur, done)
                 });
-                if let Ok((seq, cur)) = driven {
-                    passes = seq;
-                    let again = guarded(|| {
-                        let mut simp = verif::portfolio(pf).unwrap().into_iter().compose();
-                        cur.clone().apply_fixpoint(&mut simp)
-                    });
-                    passes.push(json!({"final": hash_str(&format!("{cur:?}")),
-                        "lib_equal": r.as_ref().map(|x| *x == cur).unwrap_or(false),
-                        "idempotent": again.map(|x| x == cur).unwrap_or(false)}));
+                match driven {
+                    Ok((seq, cur, done)) => {
+                        passes = seq;
+                        converged = done;
+                        driven_result = Some(cur);
+                    }
+                    Err(_) => converged = true, // a panic is reported through the library call below
+                }
+            }
+            let r = if converged {
+                guarded(|| {
+                    let mut simp = verif::portfolio(pf).unwrap().into_iter().compose();
+                    match st {
+                        "shallow" => simp(f.clone()),
+                        "recursive" => f.clone().apply(&mut simp),
+                        _ => f.clone().apply_fixpoint(&mut simp),
+                    }
+                })
+            } else {
+                Err("fixpoint iteration did not converge within 64 passes".to_string())
+            };
+            if st == "fixpoint" {
+                if let Some(cur) = driven_result {
+                    let again = if converged {
+                        guarded(|| {
+                            let mut simp = verif::portfolio(pf).unwrap().into_iter().compose();
+                            cur.clone().apply_fixpoint(&mut simp)
+                        })
+                        .map(|x| x == cur)
+                        .unwrap_or(false)
+                    } else {
+                        false
+                    };
+                    passes.push(json!({"final": hash_str(&format!("{cur:?}")), "converged": converged,
+                        "lib_equal": r.as_ref().map(|x| *x == cur).unwrap_or(false), "idempotent": again}));
                 }
             }
             results.push((pf.to_string(), st.to_string(), r, passes));
